@@ -237,33 +237,45 @@ structure St (V : Type) where
   bound : Option (Nat × V) := none     -- object the propagator was last bound to, and the value it then took
   rebinds : Nat := 0                   -- how many times the `orbit` setter ran
   prev : List (Option Int) := []       -- `Listener.prev` (date of the state it holds) per listener object
-deriving Repr
+  ver : Nat → Nat := fun _ => 0        -- how many times each orbit object was modified in place by the user
 
-/-- configuration that calls never write: the orbit objects (values), the kind, the numerical set-up -/
+/-- configuration that calls never write: the value of orbit object `i` after `k` in-place modifications by the
+user (`store i k`), the kind, the numerical set-up -/
 structure World (V : Type) where
   kind : Kind
-  store : Nat → V
+  store : Nat → Nat → V
   epoch : Nat → Int
   h : Int := 60000000
   order : Nat := 8
   pts : List Int := []
 
+/-- current value of orbit object `i` -/
+def cur {V : Type} (w : World V) (s : St V) (i : Nat) : V := w.store i (s.ver i)
+
 /-- `if self.propagator.orbit is not self: self.propagator.orbit = self` -/
 def bind {V : Type} (w : World V) (s : St V) (i : Nat) : St V :=
   if w.kind = .ephem then s
   else if w.kind.ident && (s.bound.map (·.1) == some i) then s
-  else { s with bound := some (i, w.store i), rebinds := s.rebinds + 1 }
+  else { s with bound := some (i, cur w s i), rebinds := s.rebinds + 1 }
 
-/-- value the propagation works from after binding -/
+/-- value the propagation works from after binding: what the `orbit` setter derived from the orbit when it ran
+(Sgp4: the satellite record `self.tle`; Kepler, J2, KeplerNum, CW: the converted copy), except for
+`NonePropagator.propagate`, which copies the bound object itself at each call -/
 def boundVal {V : Type} (w : World V) (s : St V) (i : Nat) : V :=
-  match s.bound with
-  | some (_, v) => v
-  | none => w.store i
+  if w.kind = .none then cur w s i
+  else match s.bound with
+    | some (_, v) => v
+    | none => cur w s i
 
 inductive Call
   | propagate (orb : Nat) (date : Int)
   | iter (orb : Nat) (a : Args) (ls : List Nat) (consume : Nat)
+  | modify (orb : Nat)            -- the user changes elements of the orbit object in place (`orb[k] = x`)
 deriving Repr
+
+def Call.isModify : Call → Bool
+  | .modify _ => true
+  | _ => false
 
 /-- the iterator of a call, and whether `clear_listeners` is reached before it ends -/
 def iterRun {V : Type} (w : World V) (fuel : Nat) (i : Nat) (a : Args) : Bool × Run :=
@@ -315,6 +327,8 @@ def exec {V R : Type} (w : World V) (f : V → Int → R) (cross : V → Int →
       -- `Speaker.listen`: each passed listener compares with the `prev` it holds when the stream starts
       let evs := ls.map (fun j => events (cross v) (prev0.getD j none) taken)
       ({ s1 with prev := prev1 }, ⟨⟨taken, fin⟩, taken.map (f v), evs⟩)
+  | .modify i =>
+    ({ s with ver := fun j => if j = i then s.ver j + 1 else s.ver j }, ⟨⟨[], .done⟩, [], []⟩)
 
 /-- a history of calls from a given state -/
 def runHist {V R : Type} (w : World V) (f : V → Int → R) (cross : V → Int → Int → Bool) (fuel : Nat)
